@@ -122,9 +122,7 @@ def make_store_on(root, tree):
 
 def main(tier):
     rep = common.Report("C10", tier, "model_checking")
-    cases = fscen.CASES + fscen.THOROUGH_CASES
-    if tier == "thorough":
-        cases = cases + LONG_LIST_CASES
+    cases = fscen.CASES + fscen.THOROUGH_CASES + fscen.LONG_LIST_CASES
     pts = states = 0
     per = {}
     classes = set()
@@ -148,7 +146,6 @@ def main(tier):
     return rep.finish([{"case": cases[0][2], "crash_before": "rename:rename:objects/tmp:objects#0"}])
 
 
-LONG_LIST_CASES = []
 
 
 def replay(rep):
